@@ -138,7 +138,28 @@ func (p *Prog) VerifyFunc(fn *ssa.Function, fc *FuncContract, cf *ContractFile, 
 		vc.mods = fr.computeMods()
 	}
 	vc.bodyStart = vc.sc.Pos()
+	if fc != nil {
+		for i := range fc.CallAssert {
+			fc.CallAssert[i].Matched = false
+		}
+		for i := range fc.CallAssume {
+			fc.CallAssume[i].Matched = false
+		}
+	}
 	rets := fr.run(st, reach)
+	if fc != nil {
+		// a call-site directive that matched no call is a stale contract, not a silent no-op
+		for _, ca := range fc.CallAssert {
+			if !ca.Matched {
+				panic(specErr{fmt.Sprintf("assert@call %s#%d matches no call in %s", ca.Callee, ca.K, res.Name)})
+			}
+		}
+		for _, ca := range fc.CallAssume {
+			if !ca.Matched {
+				panic(specErr{fmt.Sprintf("assume@after %s#%d matches no call in %s", ca.Callee, ca.K, res.Name)})
+			}
+		}
+	}
 	// post-conditions
 	if len(rets) > 0 {
 		var edges []inEdge
